@@ -9,7 +9,8 @@ from vplib import common, oracle
 
 LEVEL = "proof"
 RULE = ("Coq: Properties/C09.v (handle_total, responses_in_order, handle_session_layer_no_panic, handle_keeps_discipline, "
-        "handle_no_panic_partial [conditional on evaluator_keeps_discipline], before/after-fix examples). Dynamic: generated request histories over the whole vocabulary (definitions, lets, "
+        "handle_no_panic_partial, evaluator_discipline, machine_no_crash_partial, run_no_crash_partial, handle_no_panic [unconditional, "
+        "structured fragment], before/after-fix examples). Dynamic: generated request histories over the whole vocabulary (definitions, lets, "
         "expressions that succeed / fail at toplevel / fail inside calls, loops, blocks; eval_up_to, load and interrupt "
         "requests; malformed JSON lines; every REPL command with and without arguments) with commands issued in every "
         "session state (idle, failed at toplevel, failed inside a call, after :abort, after :skip, after :replace, after "
@@ -21,30 +22,37 @@ RULE = ("Coq: Properties/C09.v (handle_total, responses_in_order, handle_session
         "error position / command) are compared. Non-trivial = the history contains a command issued while an evaluation "
         "is pending or a state-changing command at idle.")
 META = {
-    "technique": "Coq proof on a session model over the evaluator model + differential execution of request histories + "
-                 "state-aware history search with delta debugging on the real JSON session",
+    "technique": "Coq proof on a session model over the evaluator model (invariant over every evaluator step and every session "
+                 "command) + differential execution of request histories + state-aware history search with delta debugging "
+                 "on the real JSON session",
     "level_text": ("Coq theorems over the session model (Session.v = evaluator model Machine.v + request handler with `eval`'s "
                    "stop_at_expr_id logic): every request yields exactly one response and, while nothing panicked, the i-th "
                    "response answers the i-th request (handle_total, responses_in_order); in ANY state the session commands "
-                   "themselves never panic with the repaired :skip -- a SessionPanic can only come from an evaluator crash "
-                   "inside `eval` (handle_session_layer_no_panic); every session command (run overwriting the pending "
-                   "expressions, :resume, :abort, repaired :skip, :replace, :forget_local, inspection, stopping at a call) "
-                   "preserves the value-stack / binding-block discipline `stack_ok` (handle_keeps_discipline), hence no "
-                   "state reachable through such requests answers SessionPanic (handle_no_panic_partial) -- CONDITIONAL on "
-                   "the hypothesis `evaluator_keeps_discipline` (one iteration of the eval loop keeps the discipline and does "
-                   "not crash), which is the machine-level part of C02 and is NOT proved. Examples replay the three session "
-                   "defects on the model before and after the repairs."),
-    "level_note": ("PARTIAL. Proved: totality/order; session-layer no-panic for all states; preservation of the discipline by "
-                   "every modelled command for requests in the structured fragment (wf_request: no for/break/continue/return/"
-                   "closure literal/match, parser-consistent value_is_used flags). NOT proved (explicit hypothesis of "
-                   "handle_no_panic_partial): the evaluator step preserves the discipline. Search only: definitions and "
+                   "themselves never panic with the repaired :skip (handle_session_layer_no_panic); every session command "
+                   "(run overwriting the pending expressions, :resume, :abort, repaired :skip, :replace, :forget_local, "
+                   "inspection, stopping at a call) preserves the value-stack / binding-block discipline "
+                   "(handle_keeps_discipline); every iteration of the evaluator loop preserves it and never reaches an "
+                   "`expect`/`unreachable!` (Discipline.v: evaluator_discipline, machine_no_crash_partial, "
+                   "run_no_crash_partial -- a case analysis over all of Machine.exec for the structured fragment). Hence "
+                   "UNCONDITIONALLY (handle_no_panic): for every program whose function bodies are in the fragment and every "
+                   "sequence of Run / :resume / :abort / :skip / :replace / :forget_local / inspection requests with "
+                   "expressions in the fragment, no state reachable from a fresh session answers SessionPanic. Examples "
+                   "replay the three session defects on the model before and after the repairs and show that the "
+                   "well-formedness hypothesis is satisfiable and cannot be dropped."),
+    "level_note": ("PARTIAL in the fragment only. The fragment (wf / wf_prog / wf_request): int and string literals, "
+                   "variables, binary operators, let, assignment, += and -=, if/else, while, list and tuple literals, calls "
+                   "of named functions / built-ins / enum constructors, parentheses, with the value_is_used flags the "
+                   "parser sets; namespace values without closures and Ints. NOT covered by the theorems (history search and "
+                   "differential execution only): for, break, continue, return, closure literals, match; definitions and "
                    "tests, eval_up_to, load, interrupt (asynchronous, answered by the main thread), malformed requests, "
-                   ":type/:test/:load/:namespace/:forget/:doc/:source/:parse/..., the rest of the language. Trusted: Coq "
-                   "kernel; hand-written models Machine.v and Session.v tied to the code by differential execution "
-                   "(syntax ids are modelled by source positions; requests where that is ambiguous are skipped); :quit "
-                   "(exits by design) and :trace (writes non-JSON text to stdout by design) are outside the checked "
-                   "vocabulary; the Content-Length framing of `garden json` is not exercised (reftest-json-session shares "
-                   "handle_request, the eval thread and the channel)."),
+                   ":type/:test/:load/:namespace/:forget/:doc/:source/:parse/..., the rest of the language. "
+                   "handle_no_panic_partial (conditional on evaluator_keeps_discipline) is kept; its hypothesis is now "
+                   "discharged by evaluator_discipline. Trusted: Coq kernel; hand-written models Machine.v and Session.v "
+                   "tied to the code by differential execution (syntax ids are modelled by source positions; requests where "
+                   "that is ambiguous are skipped; the OCaml glue reports for every compared history whether it satisfies the "
+                   "well-formedness hypotheses on the real parser's output: stats `model wf-flags`); :quit (exits by design) "
+                   "and :trace (writes non-JSON text to stdout by design) are outside the checked vocabulary; the "
+                   "Content-Length framing of `garden json` is not exercised."),
     "design_ref": "DESIGN.md section 5 C09, section 8 items 10 and 11",
 }
 
